@@ -164,7 +164,7 @@ def gen_other_data(rng, htype, spine, col):
 
 
 def gen_score(rng, spines=None, measures=None, allow_splits=True, kern_only=False, plain=False, comments=True, opening_barline=None,
-              final_barline=None, signatures_first=True, mid_signatures=False, non_ascii=True, unknown_types=False, chords=True, accidentals=True, compound=False, nested=True, hidden_bars=False, quiet=False):
+              final_barline=None, signatures_first=True, mid_signatures=False, non_ascii=True, unknown_types=False, chords=True, accidentals=True, compound=False, nested=True, hidden_bars=False, quiet=False, early_end=False):
     """A well-formed score.  The live spine paths are tracked here (the reference model): every cell records the cell above it on
     its own path (both branches of a split -> the split cell; merged sub-spines -> the first join cell of their spine)."""
     nsp = spines if spines is not None else rng.choice([1, 1, 2, 2, 3, 4])
@@ -255,6 +255,10 @@ def gen_score(rng, spines=None, measures=None, allow_splits=True, kern_only=Fals
 
         def ops_row(marks):
             simple_row('ops', lambda sid, col: Cell('op', marks.get(col, '*'), sid, col))
+
+        if early_end and m > 0 and len(live) >= 2 and rng.random() < 0.3:
+            # a spine that ends before the others (never the first one): a terminator in its column only
+            ops_row({rng.randrange(1, len(live)): '*-'})
 
         def close_group(final=False):
             nonlocal group, inner_first
